@@ -152,7 +152,7 @@ def reduce_source(src, still_fails, budget_s=45, keep_defassign=False):
           compile(text, 'cand', 'exec')
         except SyntaxError:
           continue
-        if keep_defassign and defassign.unbound_reads('\n'.join(cand)):
+        if keep_defassign and defassign.unbound_reads('\n'.join(cand), known_globals=PREAMBLE_GLOBALS):
           continue
         try:
           ok = still_fails(text)
@@ -164,6 +164,10 @@ def reduce_source(src, still_fails, budget_s=45, keep_defassign=False):
           break
       i -= 1
   return pre + '\n'.join(lines)
+
+
+PREAMBLE_GLOBALS = frozenset(['functools', 'LOG', '_r', '_Overflow', 'T', 'CM', 'Obj', 'LI', 'E1', 'E2', 'E3', 'H', 'H2', 'R',
+                              'RAISER', 'P1', 'P2', 'G1', 'G2', 'PH', 'malt', 'getcv', 'make', 'f'])
 
 
 def body_of(src):
